@@ -149,7 +149,7 @@ func (ex *Exec) mergeJoin(fr *frame, b *ssa.BasicBlock) *ssa.BasicBlock {
 	if ex.cfg.NoMerge || ex.cfg.Inputs != nil {
 		return nil
 	}
-	if noMergeFn != "" && strings.Contains(fr.fn.String(), noMergeFn) {
+	if ex.noMergeIn(fr.fn.String()) {
 		return nil
 	}
 	if j, ok := ex.joinOf[b]; ok {
@@ -525,3 +525,16 @@ func (ex *Exec) truncPC(mark int) {
 }
 
 var noMergeFn = os.Getenv("VERIF_NOMERGE_FN")
+
+// noMergeIn: functions (substring match) in which branches are always forked, never merged.
+func (ex *Exec) noMergeIn(fn string) bool {
+	if noMergeFn != "" && strings.Contains(fn, noMergeFn) {
+		return true
+	}
+	for _, f := range ex.cfg.NoMergeFns {
+		if strings.Contains(fn, f) {
+			return true
+		}
+	}
+	return false
+}
